@@ -246,6 +246,14 @@ pub fn cmd_pinpoint(prop: &str, tier: Tier, seed: u64, phase: &str, unit: u64) -
     0
 }
 
+/// Wait for a child and remove the scratch directory it may have left behind (a worker that was
+/// killed, or died, cannot clean up after itself; `sh -c exec` keeps the pid).
+fn reap(c: &mut std::process::Child) {
+    let id = c.id();
+    let _ = c.wait();
+    let _ = std::fs::remove_dir_all(std::env::temp_dir().join(format!("shpsim-{}", id)));
+}
+
 fn self_exe() -> PathBuf {
     std::env::current_exe().expect("current_exe")
 }
@@ -324,7 +332,7 @@ fn run_pinpoint(prop: &str, tier: Tier, seed: u64, phase: &str, unit: u64, timeo
             }
         }
     }
-    let _ = child.wait();
+    reap(&mut child);
     if done {
         if let Some((c, d)) = slowest {
             if d > slow {
@@ -429,7 +437,7 @@ pub fn cmd_check(prop: &str, tier: Tier, seed: u64, workers: u64) -> i32 {
             }
             Ok(Msg::Closed(w)) => {
                 if let Some(c) = children[w].as_mut() {
-                    let _ = c.wait();
+                    reap(c);
                 }
                 if finished[w] {
                     continue;
@@ -467,7 +475,7 @@ pub fn cmd_check(prop: &str, tier: Tier, seed: u64, workers: u64) -> i32 {
     }
     drop(tx);
     for c in children.iter_mut().flatten() {
-        let _ = c.wait();
+        reap(c);
     }
 
     // merge
@@ -765,7 +773,7 @@ pub fn cmd_replay(path: &Path) -> i32 {
             }
         }
     }
-    let _ = child.wait();
+    reap(&mut child);
     // a "hang" finding is a case that takes out of proportion long: reproduced iff it still does
     if rf.clause == "hang" && !hung && started.elapsed() > Duration::from_secs(4) {
         hung = true;
